@@ -3,6 +3,7 @@ import Genshi.Model.PyXform
 import Genshi.Model.PyUnxf
 import Genshi.Model.PyLex
 import Genshi.Model.PyLookupObj
+import Genshi.Model.PyEvalC
 import Driver.PyWire
 namespace Driver.C03
 open Genshi Genshi.Py Genshi.Sexp Driver.PyWire
@@ -41,7 +42,91 @@ def encRes : Except Obj.OE Obj.OV → Sexp
   | .error (.undefinedError _) => .list [.atom "err", .str "UndefinedError".toList]
   | .error .other => .list [.atom "err", .str "other".toList]
 
-/-- `xform tree`: the tree after `ExpressionASTTransformer` (`unmodelled` outside the modelled syntax);
+/-! ### the concrete evaluator (`Model/PyEvalC.lean`) -/
+open Genshi.Py.C in
+partial def decV : Sexp → Option CV
+  | .atom "N" => some .none
+  | .atom "T" => some (.bool true)
+  | .atom "F" => some (.bool false)
+  | .str s => some (.str s)
+  | .list [.atom "i", n] => do pure (.int (← n.toInt?))
+  | .list (.atom "l" :: xs) => do pure (.list (← xs.mapM decV))
+  | .list (.atom "t" :: xs) => do pure (.tuple (← xs.mapM decV))
+  | .list (.atom "d" :: xs) => do
+      let kvs ← xs.mapM fun
+        | .list [k, v] => do pure ((← decV k), (← decV v))
+        | _ => none
+      pure (.dict (kvs.map (·.1)) (kvs.map (·.2)))
+  | .list (.atom "o" :: xs) => do
+      let kvs ← xs.mapM fun
+        | .list [.str k, v] => do pure (k, (← decV v))
+        | _ => none
+      pure (.obj (kvs.map (·.1)) (kvs.map (·.2)))
+  | .list [.atom "b", .str n] => some (.builtin n)
+  | _ => none
+
+open Genshi.Py.C in
+def errName : CE → Option String
+  | .typeError => some "TypeError" | .nameError => some "NameError" | .keyError => some "KeyError"
+  | .indexError => some "IndexError" | .attributeError => some "AttributeError"
+  | .zeroDivision => some "ZeroDivisionError" | .valueError => some "ValueError"
+  | .undefinedError => some "UndefinedError" | .unmodelled => none | .fuel => none
+
+open Genshi.Py.C in
+/-- the value in the shape of `c03.canon` (`none`: outside the modelled domain) -/
+partial def encV : CV → Option Sexp
+  | .none => some (.atom "N")
+  | .bool b => some (ofBool b)
+  | .int i => some (.list [.atom "i", ofInt i])
+  | .str s => some (.str s)
+  | .list xs => do pure (.list (.atom "l" :: (← xs.mapM encV)))
+  | .tuple xs => do pure (.list (.atom "t" :: (← xs.mapM encV)))
+  | .dict ks vs => do
+      pure (.list (.atom "d" :: (← (ks.zip vs).mapM fun (k, v) => do pure (Sexp.list [← encV k, ← encV v]))))
+  | .obj _ _ => some (.list [.atom "o"])
+  | .range a b => some (.list [.atom "r", ofInt a, ofInt b])
+  | .undef n => some (.list [.atom "u", .str n])
+  | .builtin n => if typeNames.contains n then some (.list [.atom "ty", .str n]) else some (.list [.atom "fn"])
+  | .bound _ _ => some (.list [.atom "fn"])
+  | .clo .. => some (.list [.atom "fn"])
+  | .gen (.ok xs) => do pure (.list (.atom "g" :: (← xs.mapM encV)))
+  | .gen (.error e) => do pure (.list [.atom "gx", ofString (← errName e)])
+  | .slice _ _ _ => none
+  | .bad => none
+
+/-- a string constant whose `repr` has an escape sequence is outside the model -/
+partial def hasEscape : Sexp → Bool
+  | .list [.atom "Const", .atom "STR", .str t] => t.contains '\\'
+  | .list xs => xs.any hasEscape
+  | _ => false
+
+open Genshi.Py.C in
+def cevalFuel : Nat := 60
+
+open Genshi.Py.C in
+def decData : Sexp → Option (List (Str × CV))
+  | .list xs => xs.mapM fun
+      | .list [.str k, v] => do pure (k, (← decV v))
+      | _ => none
+  | _ => none
+
+open Genshi.Py.C in
+def ceval (py strict : Bool) (data : Sexp) (t : Sexp) : Sexp :=
+  if hasEscape t then .atom "unmodelled" else
+  match decE t, decData data with
+  | some e, some d =>
+      match run py strict d cevalFuel e with
+      | .ok v => match encV v with
+          | some x => .list [.atom "ok", x]
+          | none => .atom "unmodelled"
+      | .error err => match errName err with
+          | some n => .list [.atom "err", ofString n]
+          | none => if err = CE.fuel then .atom "unmodelled-fuel" else .atom "unmodelled"
+  | _, _ => .atom "unmodelled"
+
+/-- `ceval py strict data tree`: the concrete evaluator (`py`: Python's evaluation of the rewritten tree, else the
+    documented semantics of the tree itself);
+    `xform tree`: the tree after `ExpressionASTTransformer` (`unmodelled` outside the modelled syntax);
     `unxf tree`: the rewriting undone;
     `lookup attr|item strict obj key`: the lookup rules on a concrete record-like object;
     `lex text`: the chunks of `interpolation.lex` as `(T|F text)` pairs, `err`, or `unmodelled` -/
@@ -63,6 +148,10 @@ def handle : List Sexp → Option Sexp
             | _ => some (.atom "unmodelled")
           else some (encRes (Obj.itemOf st obj key))
       | _, _, _ => some (.atom "unmodelled")
+  | [.atom "ceval", py, strict, data, t] =>
+      match py.toBool?, strict.toBool? with
+      | some p, some st => some (ceval p st data t)
+      | _, _ => none
   | [.atom "lex", .str text] =>
       if Lex.unmodelled text then some (.atom "unmodelled") else
       match Lex.lex text with
